@@ -1,0 +1,20 @@
+//go:build !verif
+
+package bbolt
+
+// Stubs for the verification hooks (see verif_on.go, build tag `verif`).
+
+type verifOp int
+
+const (
+	verifOpWriteAt verifOp = iota + 1
+	verifOpFdatasync
+	verifOpTruncate
+	verifOpGrowSync
+	verifOpRemapEnter
+	verifOpMmap
+)
+
+func verifEvent(*DB, verifOp, int64, int, []byte) error { return nil }
+
+func verifWrapOps(*DB) {}
